@@ -4,6 +4,7 @@ set -e
 cd "$(dirname "$0")/.."
 export CARGO_NET_OFFLINE=true
 python3 tools/gen_lean.py
+python3 tools/rs2lean.py
 (cd lean && lake build TzVerif tzmodel)
 cp /repo/Cargo.lock harness/Cargo.lock 2>/dev/null || true
 (cd harness && CARGO_TARGET_DIR=target cargo build --offline --release)
